@@ -52,6 +52,16 @@ def invalid_calls(ctx):
                 ctx.fail("C06/optimize/invalid-call-rejected-after-cycles-ran", f"{meta}: {opt.steps} steps", "S-loop", meta)
         elif impl != "ok":
             ctx.fail("C06/optimize/valid-call-rejected", f"{meta} -> {impl}", "S-loop", meta)
+        if has_cfg:
+            # a rejected (or served) call must leave the instance able to serve the next valid call: bare, serial and thread
+            for kw in ({}, {"mode": "serial"}, {"mode": "thread"}):
+                ctx.case(("call-after", has_cfg, workers, mode, tuple(kw.items())), kind="malformed:then-valid-call")
+                try:
+                    quiet(opt.optimize, script_task(), **kw)
+                    if opt.steps < 1:
+                        ctx.fail("C06/optimize/valid-call-after-another-call-runs-no-cycle", f"after {meta}: optimize(task, {kw}) ran {opt.steps} cycles", "S-loop", dict(meta, then=kw))
+                except Exception as e:  # noqa
+                    ctx.fail("C06/optimize/valid-call-rejected-after-another-call", f"after {meta}: optimize(task, {kw}) -> {rerr(e)}", "S-loop", dict(meta, then=kw))
         reqs.append({"op": "loop.run", "gens": [[{"c": bits(a.cost), "f": bits(a.fitness), "t": i}] for i, (a,) in enumerate(gens)], "dir": "min", "maxCycles": 2,
                      "fe": None, "es": None, "hasConfig": has_cfg, "workers": workers, "modeValid": None if mode is None else mode in ("serial", "thread", "process")})
         impls.append(impl)
@@ -107,7 +117,7 @@ def run(ctx):
     ctx.suites_run += ["S-loop", oracles.SUITE]
     rng = ctx.rng
     ctx.rule("strict: all optimizers × continuous tasks (7 bound regimes, dimension 1..8, 4 single + 2 weighted multi objectives, min/max) × configs (max_cycles 1,2,3,5; population 1×..3× (+0/+1/+3); one algorithm parameter moved inside its validator range in 30% of the runs; "
-             "early stopping / fitness_error variants) × serial/thread(/process); baseline: ≥ 3 integer-coded tasks per working (optimizer, encoding) pair; malformed: every combination of "
+             "early stopping / fitness_error variants, early-stopping fields left None) × serial/thread(/process); baseline: ≥ 3 integer-coded tasks per working (optimizer, encoding) pair; malformed: every combination of "
              "{config present/absent} × workers {None,-3,0,1,4} × mode {None, 3 valid, 3 invalid} + invalid definitions + weight-count mismatches; a case = one run / call; non-trivial = all; distinct by job")
     invalid_calls(ctx)
     names = optimizers.names()
@@ -131,6 +141,11 @@ def run(ctx):
             for mc in (1, 3):
                 js.append({"name": name, "kind": "cont-sym", "specs": trace.task_specs(rng, rng.choice(["cont-sym", "cont", "cont-zero"]), rng.choice([2, 3, 5])), "objective": rng.choice(["sphere", "rastrigin"]),
                            "minmax": rng.choice(["min", "max"]), "seed": rng.randrange(1, 10 ** 6), "cfg": {"max_cycles": mc, "fitness_error": None, k: v}, "mode": "serial", "trace": False, "stream": "strict"})
+    # early-stopping records with a field left None: accepted by the validator (`int | None`, `float | None`), hence "valid configurations"
+    for name in rng.sample(names, 6 if not ctx.thorough else 30):
+        for es in ({"patience": None}, {"min_delta": None}, {"patience": None, "min_delta": None}):
+            js.append({"name": name, "kind": "cont-sym", "specs": trace.task_specs(rng, "cont-sym", 3), "objective": "sphere", "minmax": "min", "seed": rng.randrange(1, 10 ** 6),
+                       "cfg": {"max_cycles": 6, "fitness_error": None, "early_stopping": es}, "mode": "serial", "trace": False, "stream": "strict", "es_none": True})
     base = jobs.baseline_pairs()
     per_pair = 3 if not ctx.thorough else 8
     for kind, ns in base.items():
@@ -152,6 +167,10 @@ def run(ctx):
                 ctx.fail(f"C06/{job['name']}/valid-configuration-or-task-rejected", r["setup_error"], oracles.SUITE, {"job": oracles.job_key(job)})
             elif not ok:
                 e = r["exception"]
+                if job.get("es_none") and e["func"] == "__should_stop__" and e["type"] == "TypeError":
+                    ctx.fail("C06/optimize/TypeError/__should_stop__/early-stopping-field-None", f"{e['type']}: {e['msg']} ({e['file']}:{e['line']} in {e['func']})", oracles.SUITE,
+                             {"job": oracles.job_key(job), "exception": e})
+                    continue
                 ctx.fail(f"C06/{oracles.exception_signature(r)}", f"{e['type']}: {e['msg']} ({e['file']}:{e['line']} in {e['func']})", oracles.SUITE, {"job": oracles.job_key(job), "exception": e})
             else:
                 res = r["result"]
